@@ -1,6 +1,7 @@
 package c10
 
 import (
+	"crypto/ed25519"
 	"encoding/binary"
 	"fmt"
 	"sort"
@@ -183,7 +184,7 @@ var packBits = []int{3, 4, 6, 10, 13, 18, 20}
 func genPack(r *hx.Rng, n int) []string {
 	var out []string
 	for i := 0; i < n; i++ {
-		p := set(hx.PickS(r, []string{"44", "65", "87"}))
+		p := setOf(hx.PickS(r, []string{"44", "65", "87"}))
 		switch i % 4 {
 		case 0: // SimpleBitPack
 			bits := packBits[r.Intn(len(packBits))]
@@ -271,7 +272,7 @@ func randHint(r *hx.Rng, p *pset, w int) [][256]uint32 {
 func genHints(r *hx.Rng, n int) []string {
 	var out []string
 	for i := 0; i < n; i++ {
-		p := set([]string{"44", "65", "87"}[i%3])
+		p := setOf([]string{"44", "65", "87"}[i%3])
 		w := r.Intn(p.omega + 1)
 		switch r.Intn(8) {
 		case 0:
@@ -381,7 +382,7 @@ func genSampling(r *hx.Rng, n int) []string {
 		out = append(out, fmt.Sprintf("C10|chb|%s|%d|?big", s, 16+r.Intn(240)))
 	}
 	for i := 0; len(out) < n; i++ {
-		p := set([]string{"44", "65", "87"}[i%3])
+		p := setOf([]string{"44", "65", "87"}[i%3])
 		switch i % 3 {
 		case 0:
 			out = append(out, fmt.Sprintf("C10|rnp|%s|?rnd", hx.H(r.Bytes(34))))
@@ -428,11 +429,15 @@ func newBase(r *hx.Rng, p *pset) *base {
 	return b
 }
 
+// errHang is raised (as a panic value) when a signing call of the generator
+// does not return; gen turns it into the kernel-only case list plus a "hang" case.
+type errHang struct{ set, seed, msg string }
+
 func (b *base) resign(r *hx.Rng) {
 	b.msg, b.ctx = msgOf(r), ctxOf(r)
-	sig, err := b.sk.SignDeterministic(b.msg, b.ctx)
-	if err != nil {
-		panic(err)
+	sig := signDet(b.sk, b.msg, b.ctx)
+	if sig == nil {
+		panic(errHang{b.p.name, hx.H(b.seed), hx.H(b.msg)})
 	}
 	b.sig = sig
 }
@@ -710,12 +715,16 @@ func iterations(p *pset, skEnc, mp, rnd, sig []byte) int {
 // cheapMsg draws messages until signing (formatted message 0‖|ctx|‖ctx‖msg,
 // randomness rnd) takes at most maxIt rounds.
 func cheapMsg(r *hx.Rng, b *base, ctx, rnd []byte, maxIt int) ([]byte, int) {
+	return cheapMsgF(r, b, rnd, maxIt, func(msg []byte) []byte { return formatMsg(msg, ctx) })
+}
+
+func cheapMsgF(r *hx.Rng, b *base, rnd []byte, maxIt int, format func(msg []byte) []byte) ([]byte, int) {
 	skEnc := b.sk.Encode()
 	for {
 		msg := msgOf(r)
 		var rr [32]byte
 		copy(rr[:], rnd)
-		mp := formatMsg(msg, ctx)
+		mp := format(msg)
 		it := iterations(b.p, skEnc, mp, rr[:], imldsa.VerifSignInternal(b.sk, mp, rr))
 		if it == 0 {
 			panic("cannot recover the number of signing rounds")
@@ -726,14 +735,97 @@ func cheapMsg(r *hx.Rng, b *base, ctx, rnd []byte, maxIt int) ([]byte, int) {
 	}
 }
 
-type budget struct {
-	kg, sg, vfFull, vfCheap, ts, tv, ph, search, maxIt int
+// composite ML-DSA-65 + Ed25519 cases on the key of base b
+func genComposite(r *hx.Rng, b *base, ncs, ncv, maxIt int) []string {
+	var out []string
+	set, alg := "65", "ed25519"
+	label := compLabel(set, alg)
+	format := func(msg []byte) []byte { return formatMsg(compMsgPrime(label, msg), label) }
+	clseed := r.Bytes(32)
+	clpk := []byte(ed25519.NewKeyFromSeed(clseed).Public().(ed25519.PublicKey))
+	for i := 0; i < ncs; i++ {
+		v := []string{"T", "N"}[r.Intn(2)]
+		rb := r.Bytes(32)
+		msg, it := cheapMsgF(r, b, rb, maxIt, format)
+		out = append(out, fmt.Sprintf("C10|cs|%s|%s|%s|%d|%s|%s|%s|%s|+rounds%d", set, alg, v, uint32(r.U64()), hx.H(b.seed), hx.H(clseed), hx.H(msg), hx.H(rb), it))
+	}
+	for i := 0; i < ncv; i++ {
+		v := []string{"T", "N"}[r.Intn(2)]
+		id := uint32(r.U64())
+		msg := msgOf(r)
+		sig, err := compSign(set, alg, v, id, b.seed, clseed, msg, r.Bytes(32))
+		if err != nil {
+			panic(err)
+		}
+		plen := len(compPrefix(v, id))
+		tag := "+valid"
+		pk := b.pkb
+		switch i % 8 {
+		case 1: // only the ML-DSA component is damaged
+			sig = flipIn(r, sig, plen, plen+b.p.sigLen)
+			tag = "-mldsa-part"
+		case 2: // only the classical component is damaged
+			sig = flipIn(r, sig, plen+b.p.sigLen, len(sig))
+			tag = "-classical-part"
+		case 3:
+			msg = append(clone(msg), 1)
+			tag = "-msg"
+		case 4: // cheap: shorter than an ML-DSA signature / prefix
+			sig = sig[:plen+b.p.sigLen-1-r.Intn(10)]
+			tag = "-short"
+		case 5:
+			if v == "T" {
+				sig[1+r.Intn(4)] ^= 4
+				tag = "-prefix"
+			} else {
+				sig = append([]byte{1, 2, 3, 4, 5}, sig...)
+				tag = "-spurious-prefix"
+			}
+		case 6: // classical signature truncated / extended
+			if r.Bool() {
+				sig = sig[:len(sig)-1]
+			} else {
+				sig = append(sig, 0)
+			}
+			tag = "-classical-length"
+		case 7: // components swapped in order
+			body := clone(sig[plen:])
+			sig = append(append(clone(sig[:plen]), body[b.p.sigLen:]...), body[:b.p.sigLen]...)
+			tag = "-swapped"
+		}
+		out = append(out, fmt.Sprintf("C10|cv|%s|%s|%s|%d|%s|%s|%s|%s|%s", set, alg, v, id, hx.H(pk), hx.H(clpk), hx.H(msg), hx.H(sig), tag))
+	}
+	return out
 }
 
-func gen(r *hx.Rng, n int, tier string) []string {
-	bd := budget{kg: 1, sg: 1, vfFull: 5, vfCheap: 11, ts: 1, tv: 2, ph: 1, search: 1000, maxIt: 3}
+type budget struct {
+	kg, sg, vfFull, vfCheap, ts, tv, ph, cs, cv, search, maxIt int
+}
+
+func gen(r *hx.Rng, n int, tier string) (out []string) {
+	defer func() {
+		if e := recover(); e != nil {
+			h, ok := e.(errHang)
+			if !ok {
+				panic(e)
+			}
+			// signing does not terminate on this tree: report that, and still run the kernels
+			out = []string{fmt.Sprintf("C10|hang|%s|%s|%s|+", h.set, h.seed, h.msg), "C10|zt|?"}
+			r2 := hx.NewRng(uint64(n))
+			out = append(out, genNTT(r2, 60)...)
+			out = append(out, genPack(r2, 100)...)
+			out = append(out, genHints(r2, 150)...)
+			out = append(out, genSampling(r2, 100)...)
+			out = append(out, genScalar(r2, 1500)...)
+		}
+	}()
+	return genAll(r, n, tier)
+}
+
+func genAll(r *hx.Rng, n int, tier string) []string {
+	bd := budget{kg: 1, sg: 1, vfFull: 5, vfCheap: 11, ts: 1, tv: 2, ph: 1, cs: 1, cv: 8, search: 1000, maxIt: 3}
 	if tier == "thorough" {
-		bd = budget{kg: 8, sg: 6, vfFull: 40, vfCheap: 40, ts: 4, tv: 8, ph: 3, search: 20000, maxIt: 1000}
+		bd = budget{kg: 8, sg: 6, vfFull: 40, vfCheap: 40, ts: 4, tv: 8, ph: 3, cs: 6, cv: 64, search: 20000, maxIt: 1000}
 	}
 	var out []string
 	for _, s := range []string{"44", "65", "87"} {
@@ -744,7 +836,7 @@ func gen(r *hx.Rng, n int, tier string) []string {
 	tsSet := r.Intn(3)
 	hedge := r.Intn(2)
 	for si, s := range []string{"44", "65", "87"} {
-		p := set(s)
+		p := setOf(s)
 		b := newBase(r, p)
 		for i := 0; i < bd.kg; i++ {
 			seed := r.Bytes(32)
@@ -824,6 +916,9 @@ func gen(r *hx.Rng, n int, tier string) []string {
 			}
 			out = append(out, fmt.Sprintf("C10|tv|%s|%s|%d|%s|%s|%s|%s", s, v, id, hx.H(b.pkb), hx.H(msg), hx.H(full), tag))
 		}
+		if s == "65" {
+			out = append(out, genComposite(r, b, bd.cs, bd.cv, bd.maxIt)...)
+		}
 		for i := 0; i < bd.ph; i++ {
 			if tier != "thorough" && si != phSet {
 				continue
@@ -857,7 +952,7 @@ func weight(l string) int {
 		return 1
 	case "kg":
 		return 2
-	case "vf", "tv":
+	case "vf", "tv", "cv":
 		return 3
 	}
 	return 4
